@@ -66,6 +66,7 @@ class UnitResult:
         self.obligations = []      # list of dict(id, kind)
         self.lemmas = []
         self.cmd = ""
+        self.limit_hit = None
 
 
 def _run_verus(path, multiple_errors=10, timeout=900, rlimit=None):
@@ -229,6 +230,7 @@ def _digest_main(res, unit, out, diags, raw):
         for fb in mod.get("function-breakdown", []):
             res.fn_times[fb["function"]] = (fb.get("time", 0), fb.get("rlimit", 0), fb.get("success", False))
     others = []
+    limit_hit = None
     for d in diags:
         if d.get("level") not in ("error",):
             continue
@@ -237,8 +239,8 @@ def _digest_main(res, unit, out, diags, raw):
         if cls == "ignore":
             continue
         if cls == "undecided":
-            res.status, res.undecided_reason = "undecided", "solver: %s" % msg
-            return
+            limit_hit = "solver: %s" % msg
+            continue
         if cls == "other":
             others.append(d)
             continue
@@ -270,8 +272,12 @@ def _digest_main(res, unit, out, diags, raw):
     if vr.get("encountered-vir-error"):
         res.status, res.undecided_reason = "undecided", "verus VIR error: %s" % raw[:500]
         return
+    res.limit_hit = limit_hit
     if res.failures:
+        # a definite failure of a named obligation outranks a solver limit on another query
         res.status = "failures"
+    elif limit_hit:
+        res.status, res.undecided_reason = "undecided", limit_hit
     elif not vr.get("success", False):
         res.status, res.undecided_reason = "undecided", "verus reported failure without a diagnostic: %s" % raw[:500]
 
